@@ -68,6 +68,32 @@ REQUIRE = {
     "ovl.cl_remaining_otherwise": 100,
     "ovl.cl_split_by_percentage": 1900,
     "ovl.child_sizes_observed": 1400,
+    "entry.differential_cases": 600,
+    "entry.columns.ctor-short": 300,
+    "entry.columns.ctor-enum": 300,
+    "entry.columns.options": 300,
+    "entry.columns.options-enum": 300,
+    "entry.columns.tuple-str": 300,
+    "entry.columns.tuple-enum": 300,
+    "entry.columns.column_types": 300,
+    "entry.columns.column_types-legacy": 300,
+    "entry.columns.widget_list": 300,
+    "entry.columns.box_columns": 300,
+    "entry.pile.ctor-short": 300,
+    "entry.pile.ctor-legacy": 300,
+    "entry.pile.ctor-enum": 300,
+    "entry.pile.options": 300,
+    "entry.pile.options-enum": 300,
+    "entry.pile.tuple-str": 300,
+    "entry.pile.tuple-enum": 300,
+    "entry.pile.item_types": 300,
+    "entry.pile.item_types-legacy": 300,
+    "entry.pile.widget_list": 300,
+    "live.set_form_tuple-str": 100,
+    "live.set_form_options": 50,
+    "live.set_form_tuple-enum": 50,
+    "grid.directed_per_cell_width_cases": 2300,
+    "grid.per_cell_width_cases_judged": 2300,
     "grid.directed_core_cases": 800,
     "grid.directed_wrap_window_cases": 140,
     "grid.evals": 500,
@@ -85,7 +111,7 @@ RULE = (
     "random beyond (<=7 columns, sizes to 30, float and zero weights, zero given, box_columns flags, flow/fixed/box spy sizings, maxcol "
     "to 80). Pile: same scheme over <=4 items x {given 1..6, pack spy rows 1..6, weight 1..3} x maxrow 1..24. Padding / Filler / "
     "Overlay: align kinds {left,center,right,relative 0,1,33,50,67,99,100} x size kinds {given, relative, pack, clip} x min sizes x "
-    "margins 0..3 x available 1..24, random beyond. Live histories: random sequences of size / focus_position / contents[i]= / box_columns= on one Columns or box Pile, all clauses re-judged after every operation. GridFlow: directed core first (1..5 cells x cell width 1..5 x h_sep 0..2 x every maxcol from 1 to two past the one-line width, deterministic, not time-limited), then 1..8 cells x cell width x separators x align x maxcol, glyph boxes read "
+    "margins 0..3 x available 1..24, random beyond. Live histories: random sequences of size / focus_position / contents[i]= / box_columns= on one Columns or box Pile, all clauses re-judged after every operation. GridFlow: directed core first (1..5 cells x cell width 1..5 x h_sep 0..2 x every maxcol from 1 to two past the one-line width, deterministic, not time-limited; a second directed core of non-uniform grids with one or two cells reconfigured through contents[i] = (w, options(width_amount=N)) / ('given', N), each cell judged at its own configured width), then 1..8 cells x cell width x separators x align x maxcol, glyph boxes read "
     "off the canvas. A case = (container, options, focus, available size); distinct = distinct (options, focus) tuples for the two "
     "exhaustive cores and distinct full descriptors elsewhere; beyond 250k distinct descriptors per shard further cases are evaluated but not de-duplicated (counter cases_beyond_distinct_cap_not_deduplicated); *.shards_complete counters tell how many shards finished their slice of each enumeration in the time budget; non-trivial = the real code was executed and judged (cases for which "
     "urwid emits a WidgetWarning are counted as skipped_invalid, not as evaluations)"
@@ -225,6 +251,7 @@ class Obs:
     def __init__(self):
         self.c = Counter()
         self.fails = []
+        self.last = None  # widths / rows returned by the most recent evaluation
 
     def count(self, k, n=1):
         self.c[k] += n
@@ -353,27 +380,72 @@ def judge_columns(obs, cols, own, div, minw, focus, maxcol, widths, dom):
     return full
 
 
-def build_columns(d):
+COL_ENTRIES = [
+    "ctor", "ctor-short", "ctor-enum", "options", "options-enum", "tuple-str", "tuple-enum", "column_types", "column_types-legacy",
+    "widget_list", "box_columns",
+]  # fmt: skip
+PILE_ENTRIES = ["ctor", "ctor-short", "ctor-legacy", "ctor-enum", "options", "options-enum", "tuple-str", "tuple-enum", "item_types", "item_types-legacy", "widget_list"]
+
+
+def _kind_enum(kind):
     urwid = U()
+    return {"given": urwid.WHSettings.GIVEN, "pack": urwid.WHSettings.PACK, "weight": urwid.WHSettings.WEIGHT}[kind]
+
+
+def build_columns(d):
+    """build the Columns of descriptor d through the documented entry point d['entry'] (default: constructor tuples)"""
+    urwid = U()
+    entry = d.get("entry", "ctor")
     spies = []
-    wl = []
-    boxcols = []
+    specs = []
     for i, col in enumerate(d["cols"]):
         kind, amount, sizing = col[0], col[1], col[2]
         flag = bool(col[3]) if len(col) > 3 else False
-        if kind == "pack":
-            s = spy(GLYPHS[i], sizing, pw=amount, ph=1)
-            wl.append(("pack", s))
-        elif kind == "given":
-            s = spy(GLYPHS[i], sizing)
-            wl.append(("given", amount, s))
-        else:
-            s = spy(GLYPHS[i], sizing)
-            wl.append(("weight", amount, s))
-        if flag:
-            boxcols.append(i)
+        s = spy(GLYPHS[i], sizing, pw=amount if kind == "pack" else 1, ph=1)
         spies.append(s)
-    C = urwid.Columns(wl, dividechars=d["div"], min_width=d["minw"], box_columns=boxcols)
+        specs.append((kind, None if kind == "pack" else amount, flag))
+    boxcols = [i for i, sp in enumerate(specs) if sp[2]]
+    kw = {"dividechars": d["div"], "min_width": d["minw"]}
+    if entry in ("ctor", "ctor-short", "ctor-enum", "box_columns"):
+        wl = []
+        for (kind, amount, _f), s in zip(specs, spies):
+            if entry == "ctor-enum":
+                wl.append((_kind_enum(kind), s) if kind == "pack" else (_kind_enum(kind), amount, s))
+            elif entry == "ctor-short" and kind == "given":
+                wl.append((amount, s))
+            elif entry == "ctor-short" and kind == "weight" and amount == 1:
+                wl.append(s)
+            else:
+                wl.append(("pack", s) if kind == "pack" else (kind, amount, s))
+        if entry == "box_columns":
+            C = urwid.Columns(wl, **kw)
+            C.box_columns = boxcols
+        else:
+            C = urwid.Columns(wl, box_columns=boxcols, **kw)
+    elif entry in ("options", "options-enum", "tuple-str", "tuple-enum"):
+        C = urwid.Columns([], **kw)
+        for (kind, amount, flag), s in zip(specs, spies):
+            if entry == "options":
+                opt = C.options(kind, amount, flag)
+            elif entry == "options-enum":
+                opt = C.options(_kind_enum(kind), amount, flag)
+            elif entry == "tuple-str":
+                opt = (kind, amount, flag)  # plain strings written by hand, accepted by the contents validation
+            else:
+                opt = (_kind_enum(kind), amount, flag)
+            C.contents.append((s, opt))
+    elif entry in ("column_types", "column_types-legacy"):
+        C = urwid.Columns(list(spies), box_columns=boxcols, **kw)
+        legacy = {"given": "fixed", "pack": "flow"} if entry.endswith("legacy") else {}
+        C.column_types = [(legacy.get(kind, kind), amount) for kind, amount, _f in specs]
+        _ = C.has_flow_type  # deprecated getter, only exercised
+    elif entry == "widget_list":
+        dummies = [spy("?", "bl") for _ in spies]
+        wl = [("pack", w) if kind == "pack" else (kind, amount, w) for (kind, amount, _f), w in zip(specs, dummies)]
+        C = urwid.Columns(wl, box_columns=boxcols, **kw)
+        C.widget_list = list(spies)
+    else:
+        raise ValueError(entry)
     return C, spies
 
 
@@ -406,6 +478,7 @@ def eval_columns(obs, C, spies, d, focus, maxcol, mode, maxrow=2, fflag=False, d
         obs.fail(f"C19|Columns|column_widths|raise:{type(e).__name__}{tag}", f"{type(e).__name__}: {e}\n{tb()}")
         return
     obs.c["col.evals"] += 1
+    obs.last = list(widths) if isinstance(widths, (list, tuple)) else widths
     own = []
     for (kind, amount, *_), s in zip(cols, spies):
         if kind == "given":
@@ -501,21 +574,55 @@ def pile_domain(items):
 
 def build_pile(d):
     urwid = U()
+    entry = d.get("entry", "ctor")
     spies = []
-    wl = []
+    specs = []
     for i, it in enumerate(d["items"]):
         kind, amount, sizing = it[0], it[1], it[2]
-        if kind == "pack":
-            s = spy(GLYPHS[i], sizing, pw=3, ph=amount)
-            wl.append(("pack", s))
-        elif kind == "given":
-            s = spy(GLYPHS[i], sizing)
-            wl.append((amount, s))
-        else:
-            s = spy(GLYPHS[i], sizing)
-            wl.append(("weight", amount, s))
+        s = spy(GLYPHS[i], sizing, pw=3, ph=amount if kind == "pack" else 1)
         spies.append(s)
-    P = urwid.Pile(wl)
+        specs.append((kind, None if kind == "pack" else amount))
+    if entry in ("ctor", "ctor-short", "ctor-legacy", "ctor-enum"):
+        wl = []
+        for (kind, amount), s in zip(specs, spies):
+            if entry == "ctor-enum":
+                wl.append((_kind_enum(kind), s) if kind == "pack" else (_kind_enum(kind), amount, s))
+            elif entry == "ctor-legacy" and kind == "pack":
+                wl.append(("flow", s))
+            elif entry == "ctor-legacy" and kind == "given":
+                wl.append(("fixed", amount, s))
+            elif entry == "ctor-short" and kind == "weight" and amount == 1:
+                wl.append(s)
+            elif entry == "ctor" and kind == "given":
+                wl.append(("given", amount, s))
+            elif kind == "given":
+                wl.append((amount, s))
+            else:
+                wl.append(("pack", s) if kind == "pack" else (kind, amount, s))
+        P = urwid.Pile(wl)
+    elif entry in ("options", "options-enum", "tuple-str", "tuple-enum"):
+        P = urwid.Pile([])
+        for (kind, amount), s in zip(specs, spies):
+            if entry == "options":
+                opt = P.options(kind, amount)
+            elif entry == "options-enum":
+                opt = P.options(_kind_enum(kind), amount)
+            elif entry == "tuple-str":
+                opt = (kind, amount)
+            else:
+                opt = (_kind_enum(kind), amount)
+            P.contents.append((s, opt))
+    elif entry in ("item_types", "item_types-legacy"):
+        P = urwid.Pile(list(spies))
+        legacy = {"given": "fixed", "pack": "flow"} if entry.endswith("legacy") else {}
+        P.item_types = [(legacy.get(kind, kind), amount) for kind, amount in specs]
+    elif entry == "widget_list":
+        dummies = [spy("?", "bl") for _ in spies]
+        wl = [("pack", w) if kind == "pack" else (kind, amount, w) for (kind, amount), w in zip(specs, dummies)]
+        P = urwid.Pile(wl)
+        P.widget_list = list(spies)
+    else:
+        raise ValueError(entry)
     return P, spies
 
 
@@ -594,6 +701,7 @@ def eval_pile(obs, P, spies, d, focus, maxrow, mode):
         obs.fail(f"C19|Pile|get_item_rows|raise:{type(e).__name__}{tag}", f"{type(e).__name__}: {e}\n{tb()}")
         return
     obs.c["pile.evals"] += 1
+    obs.last = list(rows) if isinstance(rows, (list, tuple)) else rows
     if not has_w:
         obs.fail("C19|Pile|get_item_rows|no-documented-error-without-weighted-item", f"rows={rows}")
         return
@@ -1030,10 +1138,28 @@ def case_gridflow(d, obs):
     maxcol = d["maxcol"]
     n = len(cells)
     shape = "fixed-render" if maxcol is None else "flow-render"
-    spies = [spy(GLYPHS[i], "l", pw=cw, ph=r, selectable=bool(sel)) for i, (r, sel) in enumerate(cells)]
+    spies = [spy(GLYPHS[i], "l", pw=cw, ph=c[0], selectable=bool(c[1])) for i, c in enumerate(cells)]
+    # a cell may carry its own configured width (third element), set through the documented
+    # grid.contents[i] = (w, grid.options(width_amount=N)); the oracle reads each cell's width from this descriptor
+    own = [c[2] if len(c) > 2 and c[2] else None for c in cells]
+    wid = [o or cw for o in own]
+    uniform = not any(own)
+    if not uniform:
+        shape += "|per-cell-widths"
+        if maxcol is None or max(wid) > maxcol:
+            obs.c["grid.nonuniform_fixed_or_cell_wider_than_available_not_judged"] += 1
+            return
+
+    def mk():
+        G = urwid.GridFlow(spies, cw, hs, vs, py_align(d["align"]), focus=d["focus"])
+        for i, o in enumerate(own):
+            if o:
+                G.contents[i] = (spies[i], G.options(width_amount=o) if i % 2 == 0 else ("given", o))
+        return G
+
     size = () if maxcol is None else (maxcol,)
     try:
-        G = urwid.GridFlow(spies, cw, hs, vs, py_align(d["align"]), focus=d["focus"])
+        G = mk()
         canv = G.render(size, bool(d.get("f", False)))
         rows = text_rows(canv)
         ccols = canv.cols()
@@ -1050,7 +1176,7 @@ def case_gridflow(d, obs):
                 warnings.simplefilter("ignore", WidgetWarning)
                 for sp in spies:
                     sp.reset()
-                G = urwid.GridFlow(spies, cw, hs, vs, py_align(d["align"]), focus=d["focus"])
+                G = mk()
                 canv = G.render(size, bool(d.get("f", False)))
                 rows = text_rows(canv)
                 ccols = canv.cols()
@@ -1075,11 +1201,11 @@ def case_gridflow(d, obs):
         if box is None:
             obs.fail(f"C19|GridFlow|render|cell-not-shown|{shape}", f"cell {i} of {n} missing; canvas {rows}")
             return
-        if s.rendered and any(g != (cw,) for g in s.rendered):
-            obs.fail(f"C19|GridFlow|render|cell-handed-width!=cell_width|{shape}", f"cell {i} rendered at {s.rendered}, cell_width {cw}")
+        if s.rendered and any(g != (wid[i],) for g in s.rendered):
+            obs.fail(f"C19|GridFlow|render|cell-handed-width!=cell_width|{shape}", f"cell {i} rendered at {s.rendered}, configured width {wid[i]}")
             return
-        if not filled or box[1] - box[0] != cw or box[3] - box[2] != cells[i][0]:
-            obs.fail(f"C19|GridFlow|render|cell-not-drawn-at-cell-width|{shape}", f"cell {i} box {box} filled={filled} cell_width {cw} rows {cells[i][0]}; canvas {rows}")
+        if not filled or box[1] - box[0] != wid[i] or box[3] - box[2] != cells[i][0]:
+            obs.fail(f"C19|GridFlow|render|cell-not-drawn-at-cell-width|{shape}", f"cell {i} box {box} filled={filled} configured width {wid[i]} rows {cells[i][0]}; canvas {rows}")
             return
         boxes.append(box)
     # reading order: left to right, then top to bottom, no overlap
@@ -1128,6 +1254,8 @@ def case_gridflow(d, obs):
             return
     if len(starts) > 2:
         obs.c["grid.multi_line"] += 1
+    if not uniform:
+        obs.c["grid.per_cell_width_cases_judged"] += 1
 
 
 def case_live(d, obs):
@@ -1163,7 +1291,15 @@ def case_live(d, obs):
                 _w2, sp2 = (build_columns if iscol else build_pile)(tmp)
                 sp2[0].glyph = GLYPHS[i]
                 spies[i] = sp2[0]
-                W.contents[i] = (sp2[0], _w2.contents[0][1])
+                form = op[3] if len(op) > 3 else "ctor"
+                opt = _w2.contents[0][1]
+                if form != "ctor":
+                    kd, am = parts[i][0], (None if parts[i][0] == "pack" else parts[i][1])
+                    kd = _kind_enum(kd) if form == "tuple-enum" else kd
+                    extra = (bool(parts[i][3]) if len(parts[i]) > 3 else False,) if iscol else ()
+                    opt = W.options(kd, am, *extra) if form == "options" else (kd, am, *extra)
+                obs.c[f"live.set_form_{form}"] += 1
+                W.contents[i] = (sp2[0], opt)
             elif kind == "boxcols" and iscol:
                 W.box_columns = [i for i in op[1] if i < len(parts)]
                 for i, pt in enumerate(parts):
@@ -1200,7 +1336,33 @@ def case_live(d, obs):
             return
 
 
+def case_entries(d, obs):
+    """the same configuration fed through every documented entry point: each must satisfy the clauses and all must give
+    the answer of the constructor form (differential)"""
+    iscol = d["c"] == "columns"
+    case = case_columns if iscol else case_pile
+    base = {k: v for k, v in d.items() if k not in ("k", "c", "entries")}
+    base["k"] = d["c"]
+    ref = Obs()
+    case(dict(base, entry="ctor"), ref)
+    obs.c.update(ref.c)
+    obs.fails.extend(ref.fails)
+    ref_sigs = {sg for sg, _ in ref.fails}
+    obs.c["entry.differential_cases"] += 1
+    for entry in d.get("entries") or (COL_ENTRIES if iscol else PILE_ENTRIES)[1:]:
+        o = Obs()
+        case(dict(base, entry=entry), o)
+        obs.c.update(o.c)
+        obs.c[f"entry.{d['c']}.{entry}"] += 1
+        for sg, msg in o.fails:
+            if sg not in ref_sigs:
+                obs.fail(f"{sg}|entry={entry}", msg)
+        if o.last != ref.last and not (o.fails and not ref.fails):
+            obs.fail(f"C19|{d['c'].capitalize()}|entry-point|result-differs-from-constructor-form|entry={entry}", f"{entry}: {o.last} constructor: {ref.last}")
+
+
 CASES = {
+    "entries": case_entries,
     "live": case_live,
     "columns": case_columns,
     "pile": case_pile,
@@ -1236,6 +1398,11 @@ def _cands(d):
                     nd["focus"] = min(f - (1 if i < f else 0), len(nd[key]) - 1)
                     nd["focus"] = max(nd["focus"], 0)
                 yield nd
+    if d.get("k") == "entries":
+        ents = d.get("entries") or (COL_ENTRIES if d["c"] == "columns" else PILE_ENTRIES)[1:]
+        if len(ents) > 1:
+            for e in ents:
+                yield dict(d, entries=[e])
     if d.get("ops") and len(d["ops"]) > 1:
         for i in range(len(d["ops"]) - 1, -1, -1):
             nd = dict(d)
@@ -1437,6 +1604,27 @@ def zero_sweep(ctx, obs):
                 run_desc(ctx, obs, d)
 
 
+def entry_sweep(ctx, obs):
+    """deterministic core, not time-limited: small configurations through every entry point"""
+    copts = [["given", 2, "bl", False], ["given", 6, "bl", False], ["pack", 3, "blx", False], ["weight", 1, "bl", False], ["weight", 2, "bl", False]]
+    popts = [["given", 2, "b"], ["given", 5, "b"], ["pack", 3, "l"], ["weight", 1, "b"], ["weight", 2, "b"]]
+    idx = 0
+    for n in (1, 2, 3):
+        for combo in itertools.product(range(5), repeat=n):
+            for size in (4, 9):
+                idx += 1
+                if not ctx.mine(idx):
+                    continue
+                d = {"k": "entries", "c": "columns", "cols": [list(copts[c]) for c in combo], "div": idx % 2, "minw": 1 + idx % 2,
+                     "focus": idx % n, "maxcol": size, "mode": ("widths", "flow", "box")[idx % 3], "maxrow": 2}  # fmt: skip
+                if idx % 4 == 0:
+                    d["cols"][idx % n][3] = True
+                run_desc(ctx, obs, d)
+                d = {"k": "entries", "c": "pile", "items": [list(popts[c]) for c in combo], "focus": idx % n, "maxcol": 3, "maxrow": size + 2,
+                     "mode": ("rows", "render")[idx % 2]}  # fmt: skip
+                run_desc(ctx, obs, d)
+
+
 def rand_columns(rng):
     n = rng.randint(1, 7)
     big = rng.random() < 0.3
@@ -1476,6 +1664,7 @@ def rand_columns(rng):
         "mode": mode,
         "maxrow": rng.randint(1, 3),
         "f": rng.random() < 0.5,
+        "entry": rng.choice(COL_ENTRIES) if rng.random() < 0.35 else "ctor",
     }
 
 
@@ -1556,7 +1745,7 @@ def rand_live(rng):
             p = part()
             if not iscol and p[0] != "weight" and sum(q[0] == "weight" for q in parts) <= 1:
                 p = ["weight", rng.choice([1, 2, 3]), "b"]
-            ops.append(["set", rng.randrange(n), p])
+            ops.append(["set", rng.randrange(n), p, rng.choice(["ctor", "options", "tuple-str", "tuple-str", "tuple-enum"])])
         else:
             ops.append(["boxcols", sorted(rng.sample(range(n), rng.randint(0, n)))])
     d = {"k": "live", "c": "columns" if iscol else "pile", "parts": parts, "maxcol": 3, "size": sizes[0], "ops": ops,
@@ -1580,7 +1769,8 @@ def rand_pile(rng):
         else:
             w = rng.choice([1, 1, 2, 3, 5, 7, 0.5, 1.5, 0.1]) if not zero else rng.choice([0, 0, 1, 2])
             items.append(["weight", w, "b"])
-    return {"k": "pile", "items": items, "focus": rng.randrange(n), "maxcol": rng.randint(1, 9), "maxrow": rng.randint(1, 60), "mode": rng.choice(["rows", "render"])}
+    return {"k": "pile", "items": items, "focus": rng.randrange(n), "maxcol": rng.randint(1, 9), "maxrow": rng.randint(1, 60), "mode": rng.choice(["rows", "render"]),
+            "entry": rng.choice(PILE_ENTRIES) if rng.random() < 0.35 else "ctor"}  # fmt: skip
 
 
 def padding_space():
@@ -1800,6 +1990,30 @@ def gridflow_directed(ctx, obs):
                     obs.c["grid.directed_wrap_window_cases"] += 1
 
 
+def gridflow_directed_nonuniform(ctx, obs):
+    """deterministic core, not time-limited: one or two cells reconfigured to their own width, every available width from the
+    widest cell to two past the one-line width"""
+    idx = 0
+    for n, cw, hs in itertools.product((2, 3, 4), (2, 3, 4), range(3)):
+        for pos, ow in itertools.product(range(n), (1, 3, 6)):
+            if ow == cw:
+                continue
+            cells = [[1, False, None] for _ in range(n)]
+            cells[pos][2] = ow
+            if (pos + ow) % 3 == 0 and n > 2:
+                cells[(pos + 1) % n][2] = max(1, ow - 1)
+            wid = [c[2] or cw for c in cells]
+            for maxcol in range(max(wid + [cw]), sum(wid) + (n - 1) * hs + 3):
+                idx += 1
+                if not ctx.mine(idx):
+                    continue
+                d = {"k": "gridflow", "cells": cells, "cw": cw, "hsep": hs, "vsep": idx % 2, "align": ALIGNS[idx % len(ALIGNS)], "focus": idx % n, "maxcol": maxcol}
+                before = obs.c["grid.per_cell_width_cases_judged"]
+                run_desc(ctx, obs, d)
+                if obs.c["grid.per_cell_width_cases_judged"] > before:
+                    obs.c["grid.directed_per_cell_width_cases"] += 1
+
+
 def gridflow_exhaustive(ctx, obs, frac):
     idx = 0
     complete = True
@@ -1824,7 +2038,7 @@ def gridflow_exhaustive(ctx, obs, frac):
 def rand_gridflow(rng):
     n = rng.randint(1, 20)
     cw = rng.randint(1, 12)
-    return {
+    d = {
         "k": "gridflow",
         "cells": [[rng.choice([1, 1, 2, 3, 5]), rng.random() < 0.3] for _ in range(n)],
         "cw": cw,
@@ -1835,6 +2049,11 @@ def rand_gridflow(rng):
         "maxcol": rng.choice([None, rng.randint(max(cw - 1, 1), 70)]),
         "f": rng.random() < 0.5,
     }
+    if d["maxcol"] is not None and rng.random() < 0.5:
+        for c in d["cells"]:
+            if rng.random() < 0.4:
+                c.append(rng.randint(1, max(1, min(14, d["maxcol"]))))
+    return d
 
 
 def random_until(ctx, obs, gen, frac, counter):
@@ -1864,6 +2083,8 @@ def run(ctx):
     )  # fmt: skip
     obs = Obs()
     gridflow_directed(ctx, obs)
+    gridflow_directed_nonuniform(ctx, obs)
+    entry_sweep(ctx, obs)
     # budget fractions (cumulative): each part = enumerated core, then random cases until its slice ends
     columns_exhaustive(ctx, obs, 0.40)
     zero_sweep(ctx, obs)
